@@ -1157,6 +1157,458 @@ theorem c1_range_partial (p0 p1 p2 p3 : K) :
 end cubicranges
 
 
+/-! ### cubic: sign of the derivative between critical points, monotonicity, exact range -/
+
+section cubicsign
+variable [Transc K]
+
+/-- the derivative polynomial `a x² + b x + c` -/
+def cg (a b c x : K) : K := a * x^2 + b * x + c
+
+theorem between_of_prod_neg {u v r : K} (huv : u < v) (h : (u - r) * (v - r) < 0) : u < r ∧ r < v := by
+  rcases mul_neg_iff.1 h with ⟨h1, h2⟩ | ⟨h1, h2⟩
+  · exfalso; linarith
+  · exact ⟨by linarith, by linarith⟩
+
+/-- intermediate value property of a quadratic, by the root formula (`sqrt d · sqrt d = d`) -/
+theorem quad_ivt (hsq : ∀ d : K, 0 ≤ d → Transc.sqrt d * Transc.sqrt d = d)
+    (a b c u v : K) (huv : u < v) (h : cg a b c u * cg a b c v < 0) :
+    ∃ r, u < r ∧ r < v ∧ cg a b c r = 0 := by
+  by_cases ha : a = 0
+  · subst ha
+    have e : ∀ x, cg 0 b c x = b * x + c := by intro x; unfold cg; ring
+    rw [e, e] at h
+    have hb : b ≠ 0 := by
+      rintro rfl
+      have : 0 ≤ (0 * u + c) * (0 * v + c) := by
+        have : (0 * u + c) * (0 * v + c) = c * c := by ring
+        rw [this]; exact mul_self_nonneg c
+      linarith
+    obtain ⟨r, er⟩ : ∃ r : K, b * r = -c := ⟨-c / b, by field_simp⟩
+    refine ⟨r, ?_⟩
+    have hp : (b * u + c) * (b * v + c) = (b * b) * ((u - r) * (v - r)) := by
+      linear_combination (b * u + b * v - b * r + c) * er
+    have hbb : 0 < b * b := mul_self_pos.2 hb
+    have hneg : (u - r) * (v - r) < 0 := by
+      by_contra hc
+      have := mul_nonneg (le_of_lt hbb) (not_lt.1 hc)
+      linarith
+    obtain ⟨p, q⟩ := between_of_prod_neg huv hneg
+    exact ⟨p, q, by rw [e]; linarith⟩
+  · have h4a : 4 * a ≠ 0 := mul_ne_zero (by norm_num) ha
+    have h2a : 2 * a ≠ 0 := mul_ne_zero (by norm_num) ha
+    have sqr : ∀ x : K, 4 * a * cg a b c x = (2 * a * x + b)^2 - (b * b - 4 * a * c) := by
+      intro x; unfold cg; ring
+    have hd : 0 ≤ b * b - 4 * a * c := by
+      by_contra hc
+      have hc' : b * b - 4 * a * c < 0 := not_le.1 hc
+      have p1 : 0 < 4 * a * cg a b c u := by rw [sqr]; nlinarith [sq_nonneg (2 * a * u + b)]
+      have p2 : 0 < 4 * a * cg a b c v := by rw [sqr]; nlinarith [sq_nonneg (2 * a * v + b)]
+      have : 0 < (4 * a * cg a b c u) * (4 * a * cg a b c v) := mul_pos p1 p2
+      have e : (4 * a * cg a b c u) * (4 * a * cg a b c v) = (4 * a) * (4 * a) * (cg a b c u * cg a b c v) := by ring
+      have : (4 * a) * (4 * a) * (cg a b c u * cg a b c v) < 0 :=
+        mul_neg_of_pos_of_neg (mul_self_pos.2 h4a) h
+      linarith
+    have hs := hsq _ hd
+    set s := Transc.sqrt (b * b - 4 * a * c) with hsdef
+    obtain ⟨R1, hr1⟩ : ∃ R1 : K, 2 * a * R1 = -b - s := ⟨(-b - s) / (2 * a), by field_simp⟩
+    obtain ⟨R2, hr2⟩ : ∃ R2 : K, 2 * a * R2 = -b + s := ⟨(-b + s) / (2 * a), by field_simp⟩
+    have fac : ∀ x : K, 4 * a * cg a b c x = (2 * a) * (2 * a) * ((x - R1) * (x - R2)) := by
+      intro x
+      rw [sqr]
+      linear_combination hs + (2 * a * x - 2 * a * R2) * hr1 + (2 * a * x + b + s) * hr2
+    have root1 : cg a b c R1 = 0 := by
+      have := fac R1; rw [sub_self, zero_mul, mul_zero] at this
+      exact (mul_eq_zero.1 this).resolve_left h4a
+    have root2 : cg a b c R2 = 0 := by
+      have := fac R2; rw [sub_self, mul_zero, mul_zero] at this
+      exact (mul_eq_zero.1 this).resolve_left h4a
+    have hprod : ((u - R1) * (v - R1)) * ((u - R2) * (v - R2)) < 0 := by
+      have e : (4 * a * cg a b c u) * (4 * a * cg a b c v) =
+          ((2 * a) * (2 * a)) * ((2 * a) * (2 * a)) * (((u - R1) * (v - R1)) * ((u - R2) * (v - R2))) := by
+        rw [fac u, fac v]; ring
+      have e2 : (4 * a * cg a b c u) * (4 * a * cg a b c v) = (4 * a) * (4 * a) * (cg a b c u * cg a b c v) := by ring
+      have neg : (4 * a * cg a b c u) * (4 * a * cg a b c v) < 0 := by
+        rw [e2]; exact mul_neg_of_pos_of_neg (mul_self_pos.2 h4a) h
+      have pos : 0 < ((2 * a) * (2 * a)) * ((2 * a) * (2 * a)) :=
+        mul_pos (mul_self_pos.2 h2a) (mul_self_pos.2 h2a)
+      by_contra hc
+      have := mul_nonneg (le_of_lt pos) (not_lt.1 hc)
+      rw [← e] at this
+      linarith
+    rcases mul_neg_iff.1 hprod with ⟨_, hn⟩ | ⟨hn, _⟩
+    · obtain ⟨p, q⟩ := between_of_prod_neg huv hn
+      exact ⟨_, p, q, root2⟩
+    · obtain ⟨p, q⟩ := between_of_prod_neg huv hn
+      exact ⟨_, p, q, root1⟩
+
+/-- `g` keeps a weak sign on `[lo, hi]` -/
+def SignConst (g : K → K) (lo hi : K) : Prop :=
+  (∀ x, lo ≤ x → x ≤ hi → 0 ≤ g x) ∨ (∀ x, lo ≤ x → x ≤ hi → g x ≤ 0)
+
+/-- between consecutive reported critical parameters the derivative keeps its sign -/
+theorem cg_sign_const (hsq : ∀ d : K, 0 ≤ d → Transc.sqrt d * Transc.sqrt d = d)
+    (hs0 : ∀ d : K, 0 ≤ d → 0 ≤ Transc.sqrt d)
+    (a b c lo hi : K) (h0 : 0 ≤ lo) (h1 : hi ≤ 1)
+    (h : ∀ t ∈ Cubic1.extremaOf a b c, t ≤ lo ∨ hi ≤ t) : SignConst (cg a b c) lo hi := by
+  by_contra hn
+  unfold SignConst at hn
+  rw [not_or] at hn
+  obtain ⟨hn1, hn2⟩ := hn
+  simp only [not_forall, not_le] at hn1 hn2
+  obtain ⟨x, hx0, hx1, gx⟩ := hn1
+  obtain ⟨y, hy0, hy1, gy⟩ := hn2
+  by_cases hnz : a ≠ 0 ∨ b ≠ 0
+  · have root_in : ∀ r, lo < r → r < hi → cg a b c r = 0 → False := by
+      intro r p q e
+      have hm : r ∈ Cubic1.extremaOf a b c :=
+        (c1_extremaOf_iff hsq hs0 a b c r hnz).2 ⟨by linarith, by linarith, e⟩
+      rcases h r hm with k | k <;> linarith
+    rcases lt_trichotomy x y with hxy | hxy | hxy
+    · obtain ⟨r, p, q, e⟩ := quad_ivt hsq a b c x y hxy (mul_neg_of_neg_of_pos gx gy)
+      exact root_in r (by linarith) (by linarith) e
+    · rw [hxy] at gx; linarith
+    · obtain ⟨r, p, q, e⟩ := quad_ivt hsq a b c y x hxy (mul_neg_of_pos_of_neg gy gx)
+      exact root_in r (by linarith) (by linarith) e
+  · rw [not_or, not_not, not_not] at hnz
+    unfold cg at gx gy
+    rw [hnz.1, hnz.2] at gx gy
+    simp only [zero_mul, zero_add] at gx gy
+    linarith
+
+/-- Simpson's identity for one coordinate of a cubic: exact, because the derivative is quadratic -/
+theorem c1_simpson (p0 p1 p2 p3 x y : K) :
+    Cubic1.ev p0 p1 p2 p3 y - Cubic1.ev p0 p1 p2 p3 x =
+      (y - x) / 6 * (cg (Cubic1.ca p0 p1 p2 p3) (Cubic1.cb p0 p1 p2) (Cubic1.cc p0 p1) x
+        + 4 * cg (Cubic1.ca p0 p1 p2 p3) (Cubic1.cb p0 p1 p2) (Cubic1.cc p0 p1) ((x + y) / 2)
+        + cg (Cubic1.ca p0 p1 p2 p3) (Cubic1.cb p0 p1 p2) (Cubic1.cc p0 p1) y) := by
+  rw [c1_ev, c1_ev, c1_ca, c1_cb, c1_cc]; unfold cg; ring
+
+theorem c1_mono_of_sign {p0 p1 p2 p3 lo hi : K}
+    (h : SignConst (cg (Cubic1.ca p0 p1 p2 p3) (Cubic1.cb p0 p1 p2) (Cubic1.cc p0 p1)) lo hi) :
+    MonoOn (Cubic1.ev p0 p1 p2 p3) lo hi := by
+  rcases h with h | h
+  · left; intro s u a1 a2 a3
+    have e := c1_simpson p0 p1 p2 p3 s u
+    have g1 := h s a1 (le_trans a2 a3)
+    have g2 := h ((s + u) / 2) (by linarith) (by linarith)
+    have g3 := h u (le_trans a1 a2) a3
+    have : 0 ≤ (u - s) / 6 * (cg (Cubic1.ca p0 p1 p2 p3) (Cubic1.cb p0 p1 p2) (Cubic1.cc p0 p1) s
+        + 4 * cg (Cubic1.ca p0 p1 p2 p3) (Cubic1.cb p0 p1 p2) (Cubic1.cc p0 p1) ((s + u) / 2)
+        + cg (Cubic1.ca p0 p1 p2 p3) (Cubic1.cb p0 p1 p2) (Cubic1.cc p0 p1) u) :=
+      mul_nonneg (by linarith) (by linarith)
+    linarith
+  · right; intro s u a1 a2 a3
+    have e := c1_simpson p0 p1 p2 p3 s u
+    have g1 := h s a1 (le_trans a2 a3)
+    have g2 := h ((s + u) / 2) (by linarith) (by linarith)
+    have g3 := h u (le_trans a1 a2) a3
+    have : (u - s) / 6 * (cg (Cubic1.ca p0 p1 p2 p3) (Cubic1.cb p0 p1 p2) (Cubic1.cc p0 p1) s
+        + 4 * cg (Cubic1.ca p0 p1 p2 p3) (Cubic1.cb p0 p1 p2) (Cubic1.cc p0 p1) ((s + u) / 2)
+        + cg (Cubic1.ca p0 p1 p2 p3) (Cubic1.cb p0 p1 p2) (Cubic1.cc p0 p1) u) ≤ 0 :=
+      mul_nonpos_of_nonneg_of_nonpos (by linarith) (by linarith)
+    linarith
+
+theorem c1_sign_const (hsq : ∀ d : K, 0 ≤ d → Transc.sqrt d * Transc.sqrt d = d)
+    (hs0 : ∀ d : K, 0 ≤ d → 0 ≤ Transc.sqrt d)
+    (p0 p1 p2 p3 lo hi : K) (h0 : 0 ≤ lo) (h1 : hi ≤ 1)
+    (h : ∀ t ∈ Cubic1.localExtrema p0 p1 p2 p3, t ≤ lo ∨ hi ≤ t) :
+    SignConst (cg (Cubic1.ca p0 p1 p2 p3) (Cubic1.cb p0 p1 p2) (Cubic1.cc p0 p1)) lo hi :=
+  cg_sign_const hsq hs0 _ _ _ lo hi h0 h1 h
+
+/-- one coordinate of a cubic is monotone on every sub-range of `[0,1]` without a reported
+critical parameter in its interior -/
+theorem c1_mono (hsq : ∀ d : K, 0 ≤ d → Transc.sqrt d * Transc.sqrt d = d)
+    (hs0 : ∀ d : K, 0 ≤ d → 0 ≤ Transc.sqrt d)
+    (p0 p1 p2 p3 lo hi : K) (h0 : 0 ≤ lo) (h1 : hi ≤ 1)
+    (h : ∀ t ∈ Cubic1.localExtrema p0 p1 p2 p3, t ≤ lo ∨ hi ≤ t) :
+    MonoOn (Cubic1.ev p0 p1 p2 p3) lo hi :=
+  c1_mono_of_sign (c1_sign_const hsq hs0 p0 p1 p2 p3 lo hi h0 h1 h)
+
+/-- the end-tangent clamp is the identity on a range where the derivative keeps its sign:
+`ctrl1 = f(lo) + f'(lo)(hi−lo)/3`, `ctrl2 = f(hi) − f'(hi)(hi−lo)/3` -/
+theorem c1_clamp_noop {p0 p1 p2 p3 lo hi : K} (hlh : lo ≤ hi)
+    (h : SignConst (cg (Cubic1.ca p0 p1 p2 p3) (Cubic1.cb p0 p1 p2) (Cubic1.cc p0 p1)) lo hi) :
+    Cubic.clampEnd1 (Cubic1.ev p0 p1 p2 p3 lo
+        + cg (Cubic1.ca p0 p1 p2 p3) (Cubic1.cb p0 p1 p2) (Cubic1.cc p0 p1) lo / 3 * (hi - lo))
+      (Cubic1.ev p0 p1 p2 p3 lo) (Cubic1.ev p0 p1 p2 p3 hi)
+      = Cubic1.ev p0 p1 p2 p3 lo
+        + cg (Cubic1.ca p0 p1 p2 p3) (Cubic1.cb p0 p1 p2) (Cubic1.cc p0 p1) lo / 3 * (hi - lo) ∧
+    Cubic.clampEnd2 (Cubic1.ev p0 p1 p2 p3 hi
+        - cg (Cubic1.ca p0 p1 p2 p3) (Cubic1.cb p0 p1 p2) (Cubic1.cc p0 p1) hi / 3 * (hi - lo))
+      (Cubic1.ev p0 p1 p2 p3 lo) (Cubic1.ev p0 p1 p2 p3 hi)
+      = Cubic1.ev p0 p1 p2 p3 hi
+        - cg (Cubic1.ca p0 p1 p2 p3) (Cubic1.cb p0 p1 p2) (Cubic1.cc p0 p1) hi / 3 * (hi - lo) := by
+  have e := c1_simpson p0 p1 p2 p3 lo hi
+  set G := cg (Cubic1.ca p0 p1 p2 p3) (Cubic1.cb p0 p1 p2) (Cubic1.cc p0 p1) with hG
+  set f := Cubic1.ev p0 p1 p2 p3 with hf
+  have hd : 0 ≤ hi - lo := by linarith
+  have hmid1 : lo ≤ (lo + hi) / 2 := by linarith
+  have hmid2 : (lo + hi) / 2 ≤ hi := by linarith
+  unfold Cubic.clampEnd1 Cubic.clampEnd2
+  simp only [sc_min, sc_max, ge_iff_le]
+  rcases h with h | h
+  · have g1 := h lo (le_refl _) hlh
+    have g2 := h _ hmid1 hmid2
+    have g3 := h hi hlh (le_refl _)
+    have t1 : 0 ≤ G lo / 3 * (hi - lo) := mul_nonneg (by linarith) hd
+    have t3 : 0 ≤ G hi / 3 * (hi - lo) := mul_nonneg (by linarith) hd
+    have up : f lo ≤ f hi := by
+      have : 0 ≤ (hi - lo) / 6 * (G lo + 4 * G ((lo + hi) / 2) + G hi) := mul_nonneg (by linarith) (by linarith)
+      linarith
+    rw [if_pos up, if_pos up, max_eq_left (by linarith), min_eq_left (by linarith)]
+    exact ⟨rfl, rfl⟩
+  · have g1 := h lo (le_refl _) hlh
+    have g2 := h _ hmid1 hmid2
+    have g3 := h hi hlh (le_refl _)
+    have t1 : G lo / 3 * (hi - lo) ≤ 0 := mul_nonpos_of_nonpos_of_nonneg (by linarith) hd
+    have t3 : G hi / 3 * (hi - lo) ≤ 0 := mul_nonpos_of_nonpos_of_nonneg (by linarith) hd
+    have m1 : (hi - lo) * G lo ≤ 0 := mul_nonpos_of_nonneg_of_nonpos hd g1
+    have m2 : (hi - lo) * G ((lo + hi) / 2) ≤ 0 := mul_nonpos_of_nonneg_of_nonpos hd g2
+    have m3 : (hi - lo) * G hi ≤ 0 := mul_nonpos_of_nonneg_of_nonpos hd g3
+    have e' : f hi - f lo = ((hi - lo) * G lo + 4 * ((hi - lo) * G ((lo + hi) / 2)) + (hi - lo) * G hi) / 6 := by
+      rw [e]; ring
+    by_cases up : f lo ≤ f hi
+    · -- then all three terms vanish
+      have z1 : (hi - lo) * G lo = 0 := by linarith
+      have z3 : (hi - lo) * G hi = 0 := by linarith
+      have t1' : G lo / 3 * (hi - lo) = 0 := by linear_combination (1/3 : K) * z1
+      have t3' : G hi / 3 * (hi - lo) = 0 := by linear_combination (1/3 : K) * z3
+      have feq : f hi = f lo := by linarith
+      rw [if_pos up, if_pos up, t1', t3', add_zero, sub_zero, max_self, min_self]
+      exact ⟨rfl, rfl⟩
+    · rw [if_neg up, if_neg up, min_eq_left (by linarith), max_eq_left (by linarith)]
+      exact ⟨rfl, rfl⟩
+
+/-- for `t ∈ [0,1]` there are neighbours `lo ≤ t ≤ hi` among `{0} ∪ L` resp. `L ∪ {1}` with no
+element of `L` strictly between them -/
+theorem exists_bracket (L : List K) (t : K) (h0 : 0 ≤ t) (h1 : t ≤ 1) :
+    ∃ lo hi, (lo = 0 ∨ lo ∈ L) ∧ (hi = 1 ∨ hi ∈ L) ∧ lo ≤ t ∧ t ≤ hi ∧ ∀ r ∈ L, r ≤ lo ∨ hi ≤ r := by
+  induction L with
+  | nil => exact ⟨0, 1, Or.inl rfl, Or.inl rfl, h0, h1, fun r hr => by simp at hr⟩
+  | cons x L ih =>
+    obtain ⟨lo, hi, a1, a2, a3, a4, a5⟩ := ih
+    by_cases hx : x ≤ t
+    · refine ⟨max lo x, hi, ?_, ?_, max_le a3 hx, a4, ?_⟩
+      · rcases le_total lo x with k | k
+        · right; rw [max_eq_right k]; exact List.mem_cons_self ..
+        · rw [max_eq_left k]; rcases a1 with a1 | a1
+          · left; exact a1
+          · right; exact List.mem_cons_of_mem _ a1
+      · rcases a2 with a2 | a2
+        · left; exact a2
+        · right; exact List.mem_cons_of_mem _ a2
+      · intro r hr
+        rcases List.mem_cons.1 hr with rfl | hr
+        · left; exact le_max_right _ _
+        · rcases a5 r hr with k | k
+          · left; exact le_trans k (le_max_left _ _)
+          · right; exact k
+    · have hx' : t ≤ x := le_of_lt (not_le.1 hx)
+      refine ⟨lo, min hi x, ?_, ?_, a3, le_min a4 hx', ?_⟩
+      · rcases a1 with a1 | a1
+        · left; exact a1
+        · right; exact List.mem_cons_of_mem _ a1
+      · rcases le_total hi x with k | k
+        · rw [min_eq_left k]; rcases a2 with a2 | a2
+          · left; exact a2
+          · right; exact List.mem_cons_of_mem _ a2
+        · right; rw [min_eq_right k]; exact List.mem_cons_self ..
+      · intro r hr
+        rcases List.mem_cons.1 hr with rfl | hr
+        · right; exact min_le_right _ _
+        · rcases a5 r hr with k | k
+          · left; exact k
+          · right; exact le_trans (min_le_left _ _) k
+
+/-- **exact range of one coordinate of a cubic contains the coordinate for every `t ∈ [0,1]`** -/
+theorem c1_range_contains (hsq : ∀ d : K, 0 ≤ d → Transc.sqrt d * Transc.sqrt d = d)
+    (hs0 : ∀ d : K, 0 ≤ d → 0 ≤ Transc.sqrt d)
+    (p0 p1 p2 p3 t : K) (h0 : 0 ≤ t) (h1 : t ≤ 1) :
+    (Cubic1.range p0 p1 p2 p3).1 ≤ Cubic1.ev p0 p1 p2 p3 t ∧
+    Cubic1.ev p0 p1 p2 p3 t ≤ (Cubic1.range p0 p1 p2 p3).2 := by
+  obtain ⟨lo, hi, a1, a2, a3, a4, a5⟩ := exists_bracket (Cubic1.localExtrema p0 p1 p2 p3) t h0 h1
+  obtain ⟨_, _, hb⟩ := c1_range_partial p0 p1 p2 p3
+  have lo0 : 0 ≤ lo := by
+    rcases a1 with rfl | a1
+    · exact le_refl _
+    · exact le_of_lt (c1_extremaOf_interior _ _ _ lo a1).1
+  have hi1 : hi ≤ 1 := by
+    rcases a2 with rfl | a2
+    · exact le_refl _
+    · exact le_of_lt (c1_extremaOf_interior _ _ _ hi a2).2
+  have blo := hb lo (by rcases a1 with a1 | a1; exact Or.inl a1; exact Or.inr (Or.inr a1))
+  have bhi := hb hi (by rcases a2 with a2 | a2; exact Or.inr (Or.inl a2); exact Or.inr (Or.inr a2))
+  rcases c1_mono hsq hs0 p0 p1 p2 p3 lo hi lo0 hi1 a5 with m | m
+  · have m1 := m lo t (le_refl _) a3 a4
+    have m2 := m t hi a3 a4 (le_refl _)
+    exact ⟨le_trans blo.1 m1, le_trans m2 bhi.2⟩
+  · have m1 := m lo t (le_refl _) a3 a4
+    have m2 := m t hi a3 a4 (le_refl _)
+    exact ⟨le_trans bhi.1 m2, le_trans m1 blo.2⟩
+
+/-- ranges produced by `rangesSkip` from an increasing list: inside `[t0,1]`, of positive length,
+with no list element strictly inside -/
+theorem rangesSkip_good (l : List K) : ∀ t0 : K, (t0 :: l).Pairwise (· ≤ ·) → (∀ t ∈ t0 :: l, t < 1) →
+    ∀ r ∈ Cubic.rangesSkip t0 l, t0 ≤ r.1 ∧ r.1 < r.2 ∧ r.2 ≤ 1 ∧ ∀ x ∈ l, x ≤ r.1 ∨ r.2 ≤ x := by
+  induction l with
+  | nil =>
+    intro t0 _ h1 r hr
+    simp only [Cubic.rangesSkip, Scalar.one, sc_one, List.mem_singleton] at hr
+    subst hr
+    exact ⟨le_refl _, h1 t0 (List.mem_singleton.2 rfl), le_refl _, fun x hx => by simp at hx⟩
+  | cons t rest ih =>
+    intro t0 hs h1 r hr
+    rw [List.pairwise_cons] at hs
+    have ht0t : t0 ≤ t := hs.1 t (List.mem_cons_self ..)
+    have hs2 := List.pairwise_cons.1 hs.2
+    simp only [Cubic.rangesSkip, bne_iff] at hr
+    split_ifs at hr with hne
+    · rcases List.mem_cons.1 hr with rfl | hr
+      · refine ⟨le_refl _, lt_of_le_of_ne ht0t (Ne.symm hne), le_of_lt (h1 t (List.mem_cons_of_mem _ (List.mem_cons_self ..))), ?_⟩
+        intro x hx
+        rcases List.mem_cons.1 hx with rfl | hx
+        · right; exact le_refl _
+        · right; exact hs2.1 x hx
+      · obtain ⟨b1, b2, b3, b4⟩ := ih t hs.2 (fun x hx => h1 x (List.mem_cons_of_mem _ hx)) r hr
+        refine ⟨le_trans ht0t b1, b2, b3, ?_⟩
+        intro x hx
+        rcases List.mem_cons.1 hx with rfl | hx
+        · left; exact b1
+        · exact b4 x hx
+    · have hte : t = t0 := not_not.1 hne
+      have hp : (t0 :: rest).Pairwise (· ≤ ·) := by
+        rw [List.pairwise_cons]
+        exact ⟨fun x hx => hs.1 x (List.mem_cons_of_mem _ hx), hs2.2⟩
+      obtain ⟨b1, b2, b3, b4⟩ := ih t0 hp (fun x hx => by
+        rcases List.mem_cons.1 hx with rfl | hx
+        · exact h1 _ (List.mem_cons_self ..)
+        · exact h1 x (List.mem_cons_of_mem _ (List.mem_cons_of_mem _ hx))) r hr
+      refine ⟨b1, b2, b3, ?_⟩
+      intro x hx
+      rcases List.mem_cons.1 hx with rfl | hx
+      · left; rw [hte]; exact b1
+      · exact b4 x hx
+
+theorem rangesAll_good (l : List K) : ∀ t0 : K, (t0 :: l).Pairwise (· < ·) → (∀ t ∈ t0 :: l, t < 1) →
+    ∀ r ∈ Cubic.rangesAll t0 l, t0 ≤ r.1 ∧ r.1 < r.2 ∧ r.2 ≤ 1 ∧ ∀ x ∈ l, x ≤ r.1 ∨ r.2 ≤ x := by
+  induction l with
+  | nil =>
+    intro t0 _ h1 r hr
+    simp only [Cubic.rangesAll, Scalar.one, sc_one, List.mem_singleton] at hr
+    subst hr
+    exact ⟨le_refl _, h1 t0 (List.mem_singleton.2 rfl), le_refl _, fun x hx => by simp at hx⟩
+  | cons t rest ih =>
+    intro t0 hs h1 r hr
+    rw [List.pairwise_cons] at hs
+    have ht0t : t0 < t := hs.1 t (List.mem_cons_self ..)
+    have hs2 := List.pairwise_cons.1 hs.2
+    simp only [Cubic.rangesAll] at hr
+    rcases List.mem_cons.1 hr with rfl | hr
+    · refine ⟨le_refl _, ht0t, le_of_lt (h1 t (List.mem_cons_of_mem _ (List.mem_cons_self ..))), ?_⟩
+      intro x hx
+      rcases List.mem_cons.1 hx with rfl | hx
+      · right; exact le_refl _
+      · right; exact le_of_lt (hs2.1 x hx)
+    · obtain ⟨b1, b2, b3, b4⟩ := ih t hs.2 (fun x hx => h1 x (List.mem_cons_of_mem _ hx)) r hr
+      refine ⟨le_trans (le_of_lt ht0t) b1, b2, b3, ?_⟩
+      intro x hx
+      rcases List.mem_cons.1 hx with rfl | hx
+      · left; exact b1
+      · exact b4 x hx
+
+theorem cubic_ext {p q : Cubic K} (ha : p.a = q.a) (h1 : p.c1 = q.c1) (h2 : p.c2 = q.c2) (hb : p.b = q.b) :
+    p = q := by
+  cases p; cases q; simp_all
+
+/-- control points of `split_range(lo..hi)` through the derivative polynomial -/
+theorem cubic_splitRange_ctrl (c : Cubic K) (lo hi : K) :
+    (c.splitRange lo hi).a = c.sample lo ∧ (c.splitRange lo hi).b = c.sample hi ∧
+    (c.splitRange lo hi).c1.x = Cubic1.ev c.a.x c.c1.x c.c2.x c.b.x lo
+      + cg (Cubic1.ca c.a.x c.c1.x c.c2.x c.b.x) (Cubic1.cb c.a.x c.c1.x c.c2.x) (Cubic1.cc c.a.x c.c1.x) lo / 3 * (hi - lo) ∧
+    (c.splitRange lo hi).c2.x = Cubic1.ev c.a.x c.c1.x c.c2.x c.b.x hi
+      - cg (Cubic1.ca c.a.x c.c1.x c.c2.x c.b.x) (Cubic1.cb c.a.x c.c1.x c.c2.x) (Cubic1.cc c.a.x c.c1.x) hi / 3 * (hi - lo) ∧
+    (c.splitRange lo hi).c1.y = Cubic1.ev c.a.y c.c1.y c.c2.y c.b.y lo
+      + cg (Cubic1.ca c.a.y c.c1.y c.c2.y c.b.y) (Cubic1.cb c.a.y c.c1.y c.c2.y) (Cubic1.cc c.a.y c.c1.y) lo / 3 * (hi - lo) ∧
+    (c.splitRange lo hi).c2.y = Cubic1.ev c.a.y c.c1.y c.c2.y c.b.y hi
+      - cg (Cubic1.ca c.a.y c.c1.y c.c2.y c.b.y) (Cubic1.cb c.a.y c.c1.y c.c2.y) (Cubic1.cc c.a.y c.c1.y) hi / 3 * (hi - lo) := by
+  refine ⟨rfl, rfl, ?_, ?_, ?_, ?_⟩ <;> (simp only [cg, c1_ca, c1_cb, c1_cc, c1_ev]; geom_ring)
+
+end cubicsign
+
+
+/-! ### boxes from points, convex hull of four corners -/
+
+section boxes
+variable [Transc K]
+
+theorem contains_mono {x b : Box K} {p : P K} (h1 : Box.Inside x b) (h2 : Box.Contains x p) :
+    Box.Contains b p :=
+  ⟨le_trans h1.1 h2.1, le_trans h2.2.1 h1.2.1, le_trans h1.2.2.1 h2.2.2.1, le_trans h2.2.2.2 h1.2.2.2⟩
+
+theorem inside_refl (b : Box K) : Box.Inside b b := ⟨le_refl _, le_refl _, le_refl _, le_refl _⟩
+
+theorem inside_trans' {a b c : Box K} (h1 : Box.Inside a b) (h2 : Box.Inside b c) : Box.Inside a c :=
+  ⟨le_trans h2.1 h1.1, le_trans h1.2.1 h2.2.1, le_trans h2.2.2.1 h1.2.2.1, le_trans h1.2.2.2 h2.2.2.2⟩
+
+/-- `Box2D::from_points`: the result contains the start box and every point -/
+theorem foldl_grow_bounds (l : List (P K)) : ∀ b0 : Box K,
+    Box.Inside b0 (l.foldl Box.grow b0) ∧ ∀ p ∈ l, Box.Contains (l.foldl Box.grow b0) p := by
+  induction l with
+  | nil => intro b0; exact ⟨inside_refl _, fun p hp => by simp at hp⟩
+  | cons q r ih =>
+    intro b0
+    rw [List.foldl_cons]
+    obtain ⟨i1, i2⟩ := ih (b0.grow q)
+    have g1 : Box.Inside b0 (b0.grow q) := by
+      rw [grow_eq]; exact ⟨min_le_right _ _, le_max_right _ _, min_le_right _ _, le_max_right _ _⟩
+    have g2 : Box.Contains (b0.grow q) q := by
+      rw [grow_eq]; exact ⟨min_le_left _ _, le_max_left _ _, min_le_left _ _, le_max_left _ _⟩
+    refine ⟨inside_trans' g1 i1, fun p hp => ?_⟩
+    rcases List.mem_cons.1 hp with rfl | hp
+    · exact contains_mono i1 g2
+    · exact i2 p hp
+
+theorem fromPoints_contains (p0 : P K) (rest : List (P K)) :
+    ∀ p ∈ p0 :: rest, Box.Contains (Box.fromPoints p0 rest) p := by
+  intro p hp
+  unfold Box.fromPoints
+  obtain ⟨i1, i2⟩ := foldl_grow_bounds rest ⟨p0, p0⟩
+  rcases List.mem_cons.1 hp with rfl | hp
+  · exact contains_mono i1 ⟨le_refl _, le_refl _, le_refl _, le_refl _⟩
+  · exact i2 p hp
+
+/-- a value `u·A + v·B` with `|u|, |v| ≤ 1` lies between any bounds of the four corner values
+`±A ± B` (bilinear interpolation weights `(1±u)(1±v)/4`) -/
+theorem hull4 (u v A B m M : K) (hu : |u| ≤ 1) (hv : |v| ≤ 1)
+    (h1 : m ≤ A + B ∧ A + B ≤ M) (h2 : m ≤ A - B ∧ A - B ≤ M)
+    (h3 : m ≤ -A + B ∧ -A + B ≤ M) (h4 : m ≤ -A - B ∧ -A - B ≤ M) :
+    m ≤ u * A + v * B ∧ u * A + v * B ≤ M := by
+  obtain ⟨u0, u1⟩ := abs_le.1 hu
+  obtain ⟨v0, v1⟩ := abs_le.1 hv
+  have w1 : 0 ≤ (1 + u) * (1 + v) := mul_nonneg (by linarith) (by linarith)
+  have w2 : 0 ≤ (1 + u) * (1 - v) := mul_nonneg (by linarith) (by linarith)
+  have w3 : 0 ≤ (1 - u) * (1 + v) := mul_nonneg (by linarith) (by linarith)
+  have w4 : 0 ≤ (1 - u) * (1 - v) := mul_nonneg (by linarith) (by linarith)
+  constructor
+  · have e : 4 * ((u * A + v * B) - m) = (1 + u) * (1 + v) * ((A + B) - m) + (1 + u) * (1 - v) * ((A - B) - m)
+        + (1 - u) * (1 + v) * ((-A + B) - m) + (1 - u) * (1 - v) * ((-A - B) - m) := by ring
+    have := mul_nonneg w1 (sub_nonneg.2 h1.1)
+    have := mul_nonneg w2 (sub_nonneg.2 h2.1)
+    have := mul_nonneg w3 (sub_nonneg.2 h3.1)
+    have := mul_nonneg w4 (sub_nonneg.2 h4.1)
+    linarith
+  · have e : 4 * (M - (u * A + v * B)) = (1 + u) * (1 + v) * (M - (A + B)) + (1 + u) * (1 - v) * (M - (A - B))
+        + (1 - u) * (1 + v) * (M - (-A + B)) + (1 - u) * (1 - v) * (M - (-A - B)) := by ring
+    have := mul_nonneg w1 (sub_nonneg.2 h1.2)
+    have := mul_nonneg w2 (sub_nonneg.2 h2.2)
+    have := mul_nonneg w3 (sub_nonneg.2 h3.2)
+    have := mul_nonneg w4 (sub_nonneg.2 h4.2)
+    linarith
+
+
+end boxes
+
 theorem minMax_eq (a b : K) : minMax a b = (min a b, max a b) := by
   unfold minMax
   split_ifs with h
